@@ -1009,7 +1009,7 @@ fn site_class(e: &HttpResolverError) -> &'static str {
 /// One request issued at `kind` under the caller's configuration (`allow`, `redirects`) to `url`
 /// (on the loopback listener). Returns the outcome class (`ok` = the transport's final answer was
 /// delivered, a refusal class, or `err`) and the requests the listener received.
-pub fn run_site(lb: &Loopback, kind: SiteKind, allow: &Option<Vec<String>>, redirects: bool, url: &str) -> Result<(String, Vec<String>), String> {
+pub fn run_site(lb: &Loopback, kind: SiteKind, allow: &Option<Vec<String>>, redirects: bool, url: &str, async_mode: bool) -> Result<(String, Vec<String>), String> {
     use c2pa::{crypto::time_stamp::TimeStampError, Builder, Context, Error, SigningAlg};
     let mut core = serde_json::json!({ "allow_redirects": redirects });
     if let Some(v) = allow {
@@ -1025,7 +1025,7 @@ pub fn run_site(lb: &Loopback, kind: SiteKind, allow: &Option<Vec<String>>, redi
     match kind {
         SiteKind::Ctx => {
             let rq = Request::post(url).body(b"data".to_vec()).map_err(|e| e.to_string())?;
-            let class = match ctx.resolver().http_resolve(rq) {
+            let class = match ctx_resolve(&ctx, rq, async_mode) {
                 Ok(_) => "ok",
                 Err(e) => site_class(&e),
             };
@@ -1058,6 +1058,19 @@ pub fn run_site(lb: &Loopback, kind: SiteKind, allow: &Option<Vec<String>>, redi
             let _ = b.sign(signer.as_ref(), "image/jpeg", &mut Cursor::new(src), &mut out);
             Ok((class.to_string(), lb.take()))
         }
+    }
+}
+
+/// One request through the default resolver stack of `ctx`: `resolver()` (built by
+/// `build_default_sync_resolver`) or `resolver_async()` (built by `build_default_async_resolver`,
+/// driven on a current-thread tokio runtime).
+pub fn ctx_resolve(ctx: &c2pa::Context, rq: Request<Vec<u8>>, async_mode: bool) -> Result<Response<Box<dyn Read>>, HttpResolverError> {
+    if async_mode {
+        let rt = tokio::runtime::Builder::new_current_thread().enable_all().build().expect("tokio runtime");
+        let resolver = ctx.resolver_async();
+        rt.block_on(resolver.http_resolve_async(rq))
+    } else {
+        ctx.resolver().http_resolve(rq)
     }
 }
 
